@@ -190,6 +190,13 @@ class Ref:
                 a, b = self._truth(a), self._truth(b)
                 return (a and b) if op == 'and' else (a or b)
             a, b = self._num(a), self._num(b)
+            if op == '%' and (a < 0 or b < 0):
+                raise RefUndefined('modulo with a negative operand (sign convention not documented)')
+            if op == '^':
+                if a < 0 and b != int(b):
+                    raise RefUndefined('negative base with fractional exponent')
+                if abs(b) > 16 or abs(a) > 1e6:
+                    raise RefUndefined('power outside the guarded magnitude')
             try:
                 if op == '+': return a + b
                 if op == '-': return a - b
